@@ -28,21 +28,24 @@ SPECS = [
     ),
     IndSpec(
         "hexital.indicators.ema.EMA",
-        params={"period": ("int", None), "smoothing": ("float", None), "input_value": ("name", None), "round_value": ("int", None), "s": ("int", None)},
-        ctor={"skip": ("s",)},
+        params={"period": ("int", None), "smoothing": ("float", None), "input_value": ("name", None), "round_value": ("int", None), "s": ("int", None), "xeps": ("float", None)},
+        ctor={"skip": ("s", "xeps")},
+        # xeps: bound on how much the stored input may differ from the value the reading was computed from
+        # (0 for a top-level indicator; the parent's rounding when the input is a managed series that the
+        # parent rounds after driving this indicator)
         lets={"X": "input_value", "w": "s + period - 1", "a": "smoothing / (period + 1)", "eps": "Hulp(round_value)"},
-        extra_pre=dict(COMMON_PRE, **{"smoothing-range": "0 < smoothing and smoothing <= period + 1"}),
+        extra_pre=dict(COMMON_PRE, **{"smoothing-range": "0 < smoothing and smoothing <= period + 1", "xeps>=0": "xeps >= 0"}),
         inputs=X_NUM,
         inv={
             "presence": ("iff(Rd(c, j, N) is not None, j >= w)", ["C04", "C09"]),
             "type": ("implies(j >= w, isfloat(Rd(c, j, N)))", ["C04", "C09"]),
             "rounded": ROUNDED,
-            "seed": ("implies(j == w, Abs(num(Rd(c, j, N)) - Sigma(j - period + 1, j + 1, lambda t: num0(Rd(c, t, X))) / period) <= eps)", ["C04"]),
-            "recurrence": ("implies(j > w, Abs(num(Rd(c, j, N)) - (a * num(Rd(c, j, X)) + (1 - a) * num(Rd(c, j - 1, N)))) <= eps)", ["C04"]),
+            "seed": ("implies(j == w, Abs(num(Rd(c, j, N)) - Sigma(j - period + 1, j + 1, lambda t: num0(Rd(c, t, X))) / period) <= eps + xeps)", ["C04"]),
+            "recurrence": ("implies(j > w, Abs(num(Rd(c, j, N)) - (a * num(Rd(c, j, X)) + (1 - a) * num(Rd(c, j - 1, N)))) <= eps + a * xeps)", ["C04"]),
         },
         variants=[{}, {"input_value": "dotted"}],
         window="period",
-        props=["C01", "C02", "C04", "C09", "C14"],
+        props=["C01", "C02", "C04", "C06", "C09", "C14"],
     ),
 ]
 
